@@ -214,6 +214,30 @@ def regfam_probes(ctx, d):
             d.run_pattern([{"inc": [name + sf]}, {"dec": [name + sf]}], "base", True)
         d.run_pattern([{"inc": [prefix + "-9"]}, {"dec": [prefix + "-9.64"]}], "base", True)
         ctx.event("regfam_first_occurrence_probes")
+    # every (width of the first occurrence, width of the later use) pair, both suffixed: one listing per family holding
+    # inc X<w1>; dec X<w2> for every register and every pair, one rule per pair (identical at every seed)
+    for prefix, letters in fams.items():
+        insts, addr = [], 0x402000
+        widths = sorted({w for ws_ in letters.values() for w in ws_})
+        for l, ws_ in letters.items():
+            for w1 in widths:
+                for w2 in widths:
+                    if w1 in ws_ and w2 in ws_:
+                        insts.append(L.SInst(addr, "inc", [ws_[w1]], None, None, 3))
+                        insts.append(L.SInst(addr + 3, "dec", [ws_[w2]], None, None, 3))
+                        insts.append(L.SInst(addr + 6, "nop", [], None, None, 1))
+                        addr += 7
+        prep = dsl.Prepared(d.ws, insts, rng)
+        ctx.ran()
+        if not prep.verify(d.ws):
+            ctx.inconc("parser disagreement on synthetic listing")
+            continue
+        d.prep, d.style = prep, "regfam-width-pair-probe"
+        name = prefix + rng.choice(["-1", "_w", ".p"])
+        for w1 in widths:
+            for w2 in widths:
+                d.run_pattern([{"inc": [name + "." + w1]}, {"dec": [name + "." + w2]}], "base", True)
+                ctx.event("regfam_width_pair_probes")
     # the same capture used as base / index register of a memory operand (64-bit names): definition outside, use inside a $deref
     # and the other way round; the other register of the family must not match
     for prefix, letters in fams.items():
